@@ -1,5 +1,6 @@
 import HclModel.Expr.Eval
 import HclModel.Expr.Rel
+import HclModel.Expr.Taint
 import HclModel.Sexp
 /-!
 Wire format of values, types, expressions and scopes (s-expressions; strings in hex), and the fixed
@@ -184,13 +185,30 @@ def stdFuncs : Funcs
 /-- the configuration that corresponds to the Go code -/
 def goCx : Cx := { funcs := stdFuncs }
 
-/-- `EVAL <expr> <env>` → `<value> ok|err|unsupported` -/
+/-- the text of a diagnostic fragment as the message shows it -/
+def fragText : Val → String
+  | .str _ s => s
+  | .num _ q => ratStr q
+  | v => valDump v
+
+/-- the diagnostics with their fragments: `diags=<site>:<frag>,…;…` (site and fragment texts in hex, `-` for
+    "no fragment", `*` after a ghost-tainted fragment), and the number of tainted fragments (`tainted=<n>`, C19) -/
+def diagsField (ds : List Diag) : String :=
+  let one (d : Diag) : String :=
+    stringHex d.site ++ ":" ++ (if d.frags.isEmpty then "-" else ",".intercalate (d.frags.map fun f =>
+      stringHex (fragText f) ++ (if (Val.flagsDeep f).g then "*" else "")))
+  let tainted := (ds.flatMap (·.frags)).filter fun f => (Val.flagsDeep f).g
+  "diags=" ++ ";".intercalate (ds.map one) ++ " tainted=" ++ toString tainted.length
+
+/-- `EVAL <expr> <env>` → `<value> ok|err|unsupported …`; after `err`: the sites, then `diagsField`, then
+    whether the expression passes the side condition of the C19 theorem (`fclean=true|false`) -/
 def evalLine (exprS envS : Sexp) : String :=
   match exprOfSexp exprS, envOfSexp envS with
   | some e, some ρ =>
     let (v, ds) := eval goCx ρ e
     if ds.any Diag.isUnsupported then "- unsupported " ++ ((ds.filter Diag.isUnsupported).map (·.site)).toString
-    else if hasErrors ds then valDump v ++ " err " ++ (ds.map (·.site)).toString
+    else if hasErrors ds then
+      valDump v ++ " err " ++ (ds.map (·.site)).toString ++ " " ++ diagsField ds ++ " fclean=" ++ toString (fclean [] e)
     else valDump v ++ " ok"
   | none, _ => "- unsupported-input expr"
   | _, none => "- unsupported-input env"
